@@ -2,11 +2,11 @@ SPECIFICATION MCSpec
 CONSTANTS
   Relax = {}
   Mode = "honest"
-  MaxBlocks = 2
+  MaxBlocks = 1
   Layouts = {"plain"}
-  MaxUnwind = 0
+  MaxUnwind = 1
   Defect = "none"
-  MaxReload = 1
+  MaxReload = 0
 CONSTRAINT Bounded
 VIEW View
 INVARIANT TypeOK
